@@ -34,7 +34,7 @@ package interceptor
 
 // The matcher built for the namespace allow-list flags exactly the names that are not allowed.
 //@ contract createNamespaceAccessControl$1
-//@   shape sig=(name string)( string, bool);loops=;lits=0
+//@   shape sig=(name string)( string, bool);loops=;lits=0;fv=
 //@   props C16
 //@   ensures result0 == name
 //@   ensures result1 == (access != nil && !auth.allowedIn(access, name))
@@ -51,7 +51,7 @@ package interceptor
 //@        (exists n string :: visitsName(req, n) && !auth.allowedIn(i.namespaceAccess, n))
 
 //@ contract (*AccessControlInterceptor).Intercept
-//@   shape sig=(i *AccessControlInterceptor)(ctx context.Context,req any,info *grpc.UnaryServerInfo,handler grpc.UnaryHandler)( any, error);loops=;lits=0
+//@   shape sig=(i *AccessControlInterceptor)(ctx context.Context,req any,info *grpc.UnaryServerInfo,handler grpc.UnaryHandler)( any, error);loops=;lits=0;fv=handler
 //@   props C15 C16
 //@   requires info != nil
 //@   ensures @admin_denied: old(adminDeny(i, info.FullMethod)) ==>
@@ -65,7 +65,7 @@ package interceptor
 //@   ensures @allowed_forwarded: old(!adminDeny(i, info.FullMethod) && !lifecycleDeny(info.FullMethod) && i.namespaceAccess == nil) ==> i.handlerCalls == old(i.handlerCalls) + 1
 
 //@ contract (*AccessControlInterceptor).StreamIntercept
-//@   shape sig=(i *AccessControlInterceptor)(service interface{},serverStream grpc.ServerStream,info *grpc.StreamServerInfo,handler grpc.StreamHandler)( error);loops=;lits=0
+//@   shape sig=(i *AccessControlInterceptor)(service interface{},serverStream grpc.ServerStream,info *grpc.StreamServerInfo,handler grpc.StreamHandler)( error);loops=;lits=0;fv=handler
 //@   props C15
 //@   requires info != nil
 //@   ensures @admin_denied: old(adminDeny(i, info.FullMethod)) ==>
@@ -76,7 +76,7 @@ package interceptor
 
 // The interceptor holds exactly the two configured lists.
 //@ contract NewAccessControlInterceptor
-//@   shape sig=(logger log.Logger,adminServiceAllowedMethods []string,allowedNamespaces []string)( *AccessControlInterceptor);loops=;lits=0
+//@   shape sig=(logger log.Logger,adminServiceAllowedMethods []string,allowedNamespaces []string)( *AccessControlInterceptor);loops=;lits=0;fv=
 //@   props C15 C16
 //@   assigns nothing
 //@   ensures result != nil && result.adminServiceAccess != nil && result.namespaceAccess != nil
@@ -87,7 +87,7 @@ package interceptor
 // C13: names are translated by exact-match lookup only.
 // ---------------------------------------------------------------------------------------------
 //@ contract createStringMatcher$1
-//@   shape sig=(name string)( string, bool);loops=;lits=0
+//@   shape sig=(name string)( string, bool);loops=;lits=0;fv=
 //@   props C13 C14
 //@   ensures result1 == (name in mapping)
 //@   ensures result1 ==> result0 == mapping[name]
@@ -104,7 +104,7 @@ package interceptor
 // Under the statement's premise (renamed keys do not collide with each other or with kept keys) the result holds
 // exactly one entry per input entry, under the renamed key, with the SAME payload reference.
 //@ contract translateIndexedFields
-//@   shape sig=(fields map[string]*common.Payload,match stringMatcher)( map[string]*common.Payload, bool);loops=range;lits=0
+//@   shape sig=(fields map[string]*common.Payload,match stringMatcher)( map[string]*common.Payload, bool);loops=range;lits=0;fv=match
 //@   props C14 C13
 //@   pure match
 //@   requires forall a string, b string :: { newKey(match, a), newKey(match, b) } a in fields && b in fields && a != b ==> newKey(match, a) != newKey(match, b)
@@ -121,7 +121,7 @@ package interceptor
 
 // The search-attribute translator applies to every method except the workflow service (its responses carry aliases).
 //@ contract NewSearchAttributeTranslator$1
-//@   shape sig=(method string)( bool);loops=;lits=0
+//@   shape sig=(method string)( bool);loops=;lits=0;fv=
 //@   props C14
 //@   ensures result == !hasPrefix(method, api.WorkflowServicePrefix)
 //@   assigns nothing
@@ -137,7 +137,7 @@ package interceptor
 //@   assigns *
 // A translator touches a request or response only when its method filter accepts the call.
 //@ contract (*TranslationInterceptor).Intercept
-//@   shape sig=(i *TranslationInterceptor)(ctx context.Context,req any,info *grpc.UnaryServerInfo,handler grpc.UnaryHandler)( any, error);loops=range,range;lits=0
+//@   shape sig=(i *TranslationInterceptor)(ctx context.Context,req any,info *grpc.UnaryServerInfo,handler grpc.UnaryHandler)( any, error);loops=range,range;lits=0;fv=handler
 //@   props C14 C13
 //@   requires info != nil
 //@   callpre TranslateRequest: @filtered: $recv.MatchMethod(info.FullMethod) && !common.IsRequestTranslationDisabled(ctx)
@@ -156,7 +156,7 @@ package interceptor
 //@   assigns contents(cast(v, "*history122.HistoryEvent"))
 
 //@ contract validateAndRepairHistoryEvents
-//@   shape sig=(events []*history.HistoryEvent)( bool, error);loops=range;lits=0
+//@   shape sig=(events []*history.HistoryEvent)( bool, error);loops=range;lits=0;fv=
 //@   props C17
 //@   ensures @any_event_counts: result1 == nil ==> (result0 <==> exists k int :: 0 <= k && k < len(events) && repaired(events[k]))
 //@   ensures @error_reported: result1 != nil ==> exists k int :: 0 <= k && k < len(events) && repairErr(events[k]) != nil
@@ -181,7 +181,7 @@ package interceptor
 // decoded with the standard serializer or the repair changed it (and the repaired events are re-encoded). Defect D13
 // (fixed): a blob whose invalid UTF-8 was not in a failure message was returned unchanged with a nil error.
 //@ contract translateOneDataBlob
-//@   shape sig=(logger log.Logger,match stringMatcher,visitor visitor,blob *common.DataBlob)(result *common.DataBlob,matched bool,changed bool,retErr error);loops=;lits=0
+//@   shape sig=(logger log.Logger,match stringMatcher,visitor visitor,blob *common.DataBlob)(result *common.DataBlob,matched bool,changed bool,retErr error);loops=;lits=0;fv=visitor
 //@   props C17 C16 C13
 //@   ensures @never_silently_undecoded: (old(blob) != nil && old(len(blob.Data)) > 0 && retErr == nil) ==> (old(blobDecodeErr(blob)) == nil || changed)
 //@   ensures @every_blob_is_visited: (old(blob) != nil && old(len(blob.Data)) > 0 && retErr == nil) ==> old(blob).visited
@@ -198,7 +198,7 @@ package interceptor
 //@ extern validateAndRepairHistoryEvents@tryRepairInvalidUTF8InBlob(ev)
 //@   assigns *
 //@ contract tryRepairInvalidUTF8InBlob
-//@   shape sig=(blob *common.DataBlob)( []*history.HistoryEvent, bool, error);loops=;lits=0
+//@   shape sig=(blob *common.DataBlob)( []*history.HistoryEvent, bool, error);loops=;lits=0;fv=
 //@   props C17
 //@   requires blob != nil
 //@   ensures @events_only_when_repaired: !result1 ==> result0 == nil
@@ -219,7 +219,7 @@ package interceptor
 //@ extern visitNamespace@visitNamespace$1(logger, obj, match)
 //@   assigns *
 //@ contract visitNamespace$1
-//@   shape sig=(vwp visit.ValueWithParent)( visit.Action, error);loops=range;lits=0
+//@   shape sig=(vwp visit.ValueWithParent)( visit.Action, error);loops=range;lits=0;fv=match
 //@   props C13 C16
 //@   pure match
 //@   counts Assign
@@ -245,7 +245,7 @@ package interceptor
 //@ extern translateIndexedFields@visitSearchAttributes$1(fields, match)
 //@   assigns nothing
 //@ contract visitSearchAttributes$1
-//@   shape sig=(vwp visit.ValueWithParent)( visit.Action, error);loops=;lits=0
+//@   shape sig=(vwp visit.ValueWithParent)( visit.Action, error);loops=;lits=0;fv=
 //@   props C14
 //@   pure match
 //@   ensures @skip_only_where_handled: result0 == visit.Skip ==>
@@ -263,7 +263,7 @@ package interceptor
 //@   ensures result == walkErr(obj)
 //@   assigns *
 //@ contract visitSearchAttributes
-//@   shape sig=(logger log.Logger,obj any,match stringMatcher)( bool, error);loops=;lits=1
+//@   shape sig=(logger log.Logger,obj any,match stringMatcher)( bool, error);loops=;lits=1;fv=
 //@   props C14
 //@   ensures @always_walks: result1 == walkErr(obj)
 
@@ -275,7 +275,7 @@ package interceptor
 //@   ensures result3 == nil ==> result0 != nil || b == nil
 //@   assigns *, b.lastMatched, b.lastChanged
 //@ contract visitDataBlobs
-//@   shape sig=(logger log.Logger,vwp visit.ValueWithParent,match stringMatcher,visitor visitor)( bool, error);loops=;lits=0
+//@   shape sig=(logger log.Logger,vwp visit.ValueWithParent,match stringMatcher,visitor visitor)( bool, error);loops=;lits=0;fv=
 //@   props C17 C13
 //@   counts Assign
 //@   ensures @result_stored: result1 == nil && typeis(vwp.Value.Interface(), "*common.DataBlob") && cast(vwp.Value.Interface(), "*common.DataBlob") != nil &&
